@@ -734,6 +734,78 @@ fn run(name: &str, j: &J) -> Result<bool, String> {
             println!("  epsilon = {}, delta = {}: {:?}", f(j, "epsilon"), f(j, "delta"), r.as_ref().map(|x| x.dp_event().to_string()).map_err(|e| e.to_string()));
             Ok(true)
         }
+        // C10: narrowing a struct type by a predicate keeps every row that satisfies the predicate (rows on an integer grid,
+        // predicate evaluated by the library's own Expr::value; a row whose evaluation fails is skipped)
+        "c10_case" | "c10_search" => {
+            let types: Vec<(&str, DataType)> = vec![
+                ("ints", DataType::structured([("a", DataType::integer_interval(0, 6)), ("b", DataType::integer_interval(-3, 3))])),
+                ("opts", DataType::structured([("a", DataType::optional(DataType::integer_interval(0, 6))), ("b", DataType::optional(DataType::integer_interval(-3, 3)))])),
+                ("mixed", DataType::structured([("a", DataType::float_interval(0., 6.)), ("b", DataType::integer_interval(-3, 3))])),
+            ];
+            let col = |n: &str| Expr::col(n);
+            let preds: Vec<Expr> = vec![
+                Expr::gt(col("a"), col("b")), Expr::lt(col("a"), col("b")), Expr::gt_eq(col("a"), Expr::val(2)), Expr::lt_eq(col("b"), Expr::val(0)), Expr::eq(col("a"), col("b")),
+                Expr::and(Expr::gt(col("a"), Expr::val(1)), Expr::lt(col("b"), Expr::val(2))), Expr::or(Expr::gt(col("a"), Expr::val(4)), Expr::lt(col("b"), Expr::val(-1))),
+                Expr::or(Expr::gt(col("a"), Expr::val(-10)), Expr::lt(col("b"), Expr::val(-2))), Expr::and(Expr::lt(col("a"), col("b")), Expr::gt(col("b"), Expr::val(0))),
+                Expr::in_list(col("a"), Expr::list([1, 3, 5])), Expr::gt(Expr::val(3), col("a")), Expr::lt(Expr::val(0), col("b")),
+            ];
+            let want = (j["type"].as_str(), j["pred"].as_u64());
+            for (tn, t) in &types { for (pi, p) in preds.iter().enumerate() {
+                if let (Some(wt), Some(wp)) = want { if wt != *tn || wp as usize != pi { continue; } }
+                let narrowed = match std::panic::catch_unwind(std::panic::AssertUnwindSafe(|| t.filter(p))) { Ok(n) => n, Err(_) => continue };
+                for a in 0..=6i64 { for b in -3..=3i64 {
+                    let av = if *tn == "mixed" { Value::float(a as f64) } else { Value::integer(a) };
+                    let row = Value::structured([("a", av.clone()), ("b", Value::integer(b))]);
+                    let holds = match std::panic::catch_unwind(std::panic::AssertUnwindSafe(|| p.value(&row))) { Ok(Ok(Value::Boolean(x))) => *x, _ => continue };
+                    if !holds { continue; }
+                    // a value of an optional column may be represented bare or wrapped: accept any representation
+                    // and a number may be carried as an integer or as the equal float (narrowing converts variants)
+                    let alts = |n: i64| -> Vec<Value> { vec![Value::integer(n), Value::float(n as f64), Value::some(Value::integer(n)), Value::some(Value::float(n as f64))] };
+                    let mut reps: Vec<Value> = vec![];
+                    for x in alts(a) { for y in alts(b) { reps.push(Value::structured([("a", x.clone()), ("b", y)])); } }
+                    if reps.iter().any(|r| t.contains(r)) && !reps.iter().any(|r| narrowed.contains(r)) {
+                        println!("  {} narrowed by {} is {}: the row (a = {}, b = {}) satisfies the predicate and is dropped", t, p, narrowed, a, b);
+                        println!("QX-WITNESS {}", serde_json::json!({"type": tn, "pred": pi}));
+                        return Ok(false);
+                    }
+                } }
+            } }
+            Ok(true)
+        }
+        // C12: conversions between variants through the public API: the converted value lies in the converted type, distinct
+        // values stay distinct, and converting back (when possible) returns the value
+        "c12_case" | "c12_search" => {
+            let sources: Vec<(DataType, Vec<Value>)> = vec![
+                (DataType::boolean(), vec![Value::boolean(false), Value::boolean(true)]),
+                (DataType::integer_interval(0, 1), vec![Value::integer(0), Value::integer(1)]),
+                (DataType::integer_interval(-3, 12), vec![Value::integer(-3), Value::integer(0), Value::integer(1), Value::integer(7), Value::integer(12)]),
+                (DataType::float_values([0., 1., 2., 9223372036854775808.0]), vec![Value::float(0.), Value::float(1.), Value::float(2.), Value::float(9223372036854775808.0)]),
+                (DataType::float_interval(0., 3.), vec![Value::float(0.), Value::float(1.), Value::float(2.5)]),
+                (DataType::optional(DataType::integer_interval(0, 5)), vec![Value::none(), Value::some(Value::integer(0)), Value::some(Value::integer(3))]),
+                (DataType::optional(DataType::float_values([1., 2.5])), vec![Value::none(), Value::some(Value::float(1.)), Value::some(Value::float(2.5))]),
+                (DataType::structured([("a", DataType::integer_interval(0, 5)), ("b", DataType::integer_interval(0, 5))]), vec![Value::structured([("a", Value::integer(1)), ("b", Value::integer(2))]), Value::structured([("a", Value::integer(1)), ("b", Value::integer(3))])]),
+                (DataType::list(DataType::integer_interval(0, 5), 0, 3), vec![Value::list(vec![]), Value::list(vec![Value::integer(1)]), Value::list(vec![Value::integer(1), Value::integer(2)])]),
+            ];
+            let targets: Vec<DataType> = vec![DataType::boolean(), DataType::integer(), DataType::float(), DataType::text(), DataType::optional(DataType::integer()), DataType::optional(DataType::float()),
+                DataType::structured([("a", DataType::float())]), DataType::structured([("a", DataType::float()), ("b", DataType::float())]), DataType::list(DataType::float(), 0, 10)];
+            let want = (j["source"].as_u64(), j["target"].as_u64());
+            std::panic::set_hook(Box::new(|_| {}));
+            for (si, (src, values)) in sources.iter().enumerate() { for (ti, tgt) in targets.iter().enumerate() {
+                if let (Some(a), Some(b)) = want { if (a as usize, b as usize) != (si, ti) { continue; } }
+                let conv_t = match std::panic::catch_unwind(std::panic::AssertUnwindSafe(|| src.clone().into_data_type(tgt))) { Ok(Ok(t)) => t, _ => continue };
+                let mut images: Vec<(Value, Value)> = vec![];
+                for v in values {
+                    let w = match std::panic::catch_unwind(std::panic::AssertUnwindSafe(|| v.as_data_type(tgt))) { Ok(Ok(w)) => w, _ => continue };
+                    let mut bad: Option<String> = None;
+                    if !conv_t.contains(&w) { bad = Some(format!("{} (in {}) converts to {}, which is not in the converted type {}", v, src, w, conv_t)); }
+                    if let Some((v0, _)) = images.iter().find(|(v0, w0)| *w0 == w && v0 != v) { bad = Some(format!("{} and {} (in {}) both convert to {} as {}", v0, v, src, w, tgt)); }
+                    if let Ok(Ok(back)) = std::panic::catch_unwind(std::panic::AssertUnwindSafe(|| w.as_data_type(src))) { if &back != v { bad = bad.or(Some(format!("{} converts to {} as {} and back to {}", v, w, tgt, back))); } }
+                    if let Some(m) = bad { println!("  {}", m); println!("QX-WITNESS {}", serde_json::json!({"source": si, "target": ti})); return Ok(false); }
+                    images.push((v.clone(), w));
+                }
+            } }
+            Ok(true)
+        }
         _ => Err(format!("unknown replay `{}`", name)),
     }
 }
